@@ -16,6 +16,6 @@ for sha in $(git log --format=%h --grep='^fix:' --reverse); do
       hits="$hits C$i$rules"
     fi
   done
-  git checkout -q -- .
+  git checkout -q -- . && git clean -fdq
   echo "$sha | $subj | $hits"
 done
